@@ -46,7 +46,12 @@ func runC01(c *Ctx) {
 	queueNextRepr(c, "C01.relay")
 	if a := resolveCache(c, "C01.relay"); a.ok {
 		deleteCondTable(c, a, "C01.relay")
+		// a rejected update of a combined notification must not swallow its deletes
+		multiComplete(c, a, "C01.relay-complete")
 	}
+	// the event-driven suppression must never call two different values equal
+	// (a suppressed change never reaches a streaming client)
+	equalArms(c, "C01.relay-equal", false)
 	// ---- reg
 	{
 		n := 0
